@@ -33,6 +33,20 @@ pub enum Rewrite {
 pub struct Case {
     pub file: u32,
     pub rewrites: Vec<Rewrite>,
+    /// self-contained source (pinned replays); generated cases take a corpus file
+    #[serde(default)]
+    pub src: Option<String>,
+}
+
+fn source_of(case: &Case) -> Option<(String, String)> {
+    if let Some(s) = &case.src {
+        return fingerprint(s).ok().map(|f| (s.clone(), f));
+    }
+    let c = parsing_corpus();
+    if c.is_empty() {
+        return None;
+    }
+    Some(c[idx(case.file, c.len())].clone())
 }
 
 const COMMENTS: &[&str] = &["c", "x = 1", "\"quote", "'''", "#", "日本語", "]", "-> {", "\\"];
@@ -234,9 +248,8 @@ pub fn apply(src: &str, rewrites: &[Rewrite]) -> (String, usize) {
 }
 
 pub fn rewritten(case: &Case) -> String {
-    let c = parsing_corpus();
-    let (src, _) = &c[idx(case.file, c.len())];
-    apply(src, &case.rewrites).0
+    let Some((src, _)) = source_of(case) else { return String::new() };
+    apply(&src, &case.rewrites).0
 }
 
 fn parsing_corpus() -> &'static Vec<(String, String)> {
@@ -264,10 +277,10 @@ impl Property for C10 {
             2 => any::<u32>().prop_map(Rewrite::Continuation),
             3 => any::<u32>().prop_map(Rewrite::Parens),
         ];
-        (any::<u32>(), proptest::collection::vec(rw, 1..=8)).prop_map(|(file, rewrites)| Case { file, rewrites }).boxed()
+        (any::<u32>(), proptest::collection::vec(rw, 1..=8)).prop_map(|(file, rewrites)| Case { file, rewrites, src: None }).boxed()
     }
     fn cases(&self, tier: Tier) -> usize {
-        tier.pick(6_000, 150_000)
+        tier.pick(60_000, 1_500_000)
     }
     fn mode(&self) -> Mode {
         Mode::Workers
@@ -280,10 +293,8 @@ impl Property for C10 {
     }
     fn render(&self, case: &Case) -> serde_json::Value {
         let c = parsing_corpus();
-        if c.is_empty() {
-            return json!(null);
-        }
-        let (src, _) = &c[idx(case.file, c.len())];
+        let Some((src, _)) = source_of(case) else { return json!(null) };
+        let src = &src;
         let (out, n) = apply(src, &case.rewrites);
         // show only the changed lines
         let a: Vec<&str> = src.lines().collect();
@@ -292,10 +303,8 @@ impl Property for C10 {
     }
     fn run(&self, case: &Case) -> Outcome {
         let c = parsing_corpus();
-        if c.is_empty() {
-            return Outcome::inconclusive("no-corpus");
-        }
-        let (src, fp0) = &c[idx(case.file, c.len())];
+        let Some((src, fp0)) = source_of(case) else { return Outcome::inconclusive("no-corpus") };
+        let (src, fp0) = (&src, &fp0);
         // determinism, same process
         match fingerprint(src) {
             Ok(f) if &f == fp0 => {}
